@@ -432,6 +432,8 @@ class PostgreSQLQueryBuilder(QueryBuilder):
         newone = super().__copy__()
         newone._returns = copy(self._returns)
         newone._on_conflict_do_updates = copy(self._on_conflict_do_updates)
+        newone._on_conflict_fields = copy(self._on_conflict_fields)
+        newone._distinct_on = copy(self._distinct_on)
         return newone
 
     @builder
